@@ -166,7 +166,7 @@ def put (v : V) (path : Path) (value : V) (prepend : Bool) : Res (V × V) :=
       match atoi key with
       | none => .error .err
       | some index =>
-        if index < 0 then .error .err else
+        if index < 0 || index == (maxInt : Int) then .error .err else   -- math.MaxInt is rejected (index+1 would wrap)
         let idx := index.toNat
         if idx < xs.length then
           match xs[idx]? with
@@ -177,11 +177,6 @@ def put (v : V) (path : Path) (value : V) (prepend : Bool) : Res (V × V) :=
             | .error e => .error e
           | none => .error .err
         else if value.isMissing then .error .err
-        else if idx ≥ maxInt then
-          -- `index+1` wraps around: no padding happens and `arr[index] = v` is out of range
-          match put .missing rest value prepend with
-          | .ok _ => .error (.panic "access.put:arr[index]")
-          | .error e => .error e
         else
           match put .missing rest value prepend with
           | .ok (nv, _) =>
